@@ -89,7 +89,7 @@ theorem C06_complete (i : Input) (P : Program) (hwf : wf i = true) (hm : model i
   obtain ⟨al, hal, rfl⟩ := model_ok hm
   have w := alwf_of_ok hwf hal
   have cv := alcov_of_ok hal
-  obtain ⟨_, _, hcover⟩ := (wf_iff i).mp hwf
+  obtain ⟨_, _, hcover⟩ := wf_iff i hwf
   unfold eligible at he
   cases hfb : findGlyph i b with
   | none => rw [hfb] at he; simp at he
